@@ -314,6 +314,12 @@ class C16(Prop):
             if rng.random() < 0.05:
                 body = []
             lines = [self._line(rng, rng.choice([f for f in (hdr, body, footer) if f])) for _ in range(rng.choice([0, 1, 2, 3, 4, 6]))]
+            if lines and rng.random() < 0.2:
+                # characters that str.splitlines() treats as line boundaries but a text file does not (VT, FF, FS, GS, RS, NEL)
+                j = rng.randrange(len(lines))
+                if lines[j]:
+                    k = rng.randrange(len(lines[j]))
+                    lines[j] = lines[j][:k] + rng.choice(["\x0b", "\x0c", "\x1c", "\x1d", "\x1e", "\x85"]) + lines[j][k + 1:]
             out.append({"stream": "fwf_load", "tag": "rnd:fwf_load",
                         "input": {"lines": lines, "hdr": hdr, "body": body, "footer": footer,
                                   "validate": rng.random() < 0.85, "orig": rng.choice([None, "_raw", "_raw", "A"])}})
